@@ -1,5 +1,7 @@
 package corr
 
+import "reflect"
+
 func init() {
 	Runners["C04"] = runC04
 }
@@ -16,6 +18,9 @@ func runC04(p *Plan) {
 			for i, path := range ps.Paths {
 				el, found := NavReflect(vc.v, path)
 				cands := OperandsNear(tr, el, found)
+				if found && (el.Kind() == reflect.Float32 || el.Kind() == reflect.Float64) && (p.Tier == "thorough" || tr.Chance(1, 3)) {
+					OpCmpSpecial(p.Out, e, vc.v, path)
+				}
 				for j := 0; j < perPath; j++ {
 					f := readForms[0]
 					if tr.Chance(1, 5) {
